@@ -25,7 +25,12 @@ META = {
                   "TryToWrite calls of the emitted writable fields, in order (scalars, enums by name or number, nested structures, "
                   "arrays in both layouts). Tied to /repo each run by byte-for-byte comparison of the model's text with "
                   "WriteToString, C++ read-back into a zeroed buffer, and UpdateFromText on perturbed texts.",
-    "level_note": "Float text is excluded from the theorems and the model (libc snprintf/sscanf are not modelled). "
+    "level_note": "Float text is excluded from the theorems and the Coq model (libc snprintf/sscanf are not modelled); it is OBSERVED: "
+                  "generated and corpus structures with Float:32/64 fields (zeros, denormals, extremes, infinities, quiet/signalling NaNs "
+                  "with and without sign bit and payload) go through WriteToString -> UpdateFromText on the C++ side each run and the "
+                  "restored buffer is compared bit for bit, float tokens against a python reference rendering. Enum fields use enums "
+                  "with every (cpp) enum_case setting (SHOUTY_CASE, kCamelCase, both orders; module/enum $default and per value); the "
+                  "text always uses the Emboss name (model) and must be read back. "
                   "struct_roundtrip is `_partial`: the storage step (the sequence of TryToWrite calls, in dependency order, on the "
                   "zeroed buffer succeeds and reads back; needs the layout semantics of C01/C03/C15) is the named hypothesis "
                   "Hstore of struct_roundtrip_partial and is observed on the C++ side on every generated case; everything the text "
@@ -198,6 +203,14 @@ def codec_cases(ctx, n_random):
     return enc, dec, tok
 
 
+def _rundir(ctx):
+    """Scratch directory of THIS process (two runs of ./check C06 at the same time must not share
+    generated modules and case files); removed at the end of run()."""
+    d = os.path.join(ctx.bdir, "run%d" % os.getpid())
+    os.makedirs(d, exist_ok=True)
+    return d
+
+
 class SharedCases(fw.CoqCases):
     """CoqCases whose cases may refer to named definitions: obj["defs"] = [(name, type, term)];
     every shard file defines (once) what its cases use.  Same protocol and output as fw.CoqCases."""
@@ -206,7 +219,7 @@ class SharedCases(fw.CoqCases):
         import shutil
         import subprocess
         import time
-        d = os.path.join(self.ctx.bdir, "cases_" + self.name)
+        d = os.path.join(_rundir(self.ctx), "cases_" + self.name)
         shutil.rmtree(d, ignore_errors=True)
         os.makedirs(d)
         shards = [cases[i:i + self.shard] for i in range(0, len(cases), self.shard)]
@@ -284,9 +297,9 @@ def run_codec_tie(ctx, only=None):
         lines.append("D %s %s" % (tname(t), s.encode("latin-1", "replace").hex()))
     for s in tok:
         lines.append("T %s" % s.encode("latin-1", "replace").hex())
-    wd = os.path.join(ctx.bdir, "cpp")
+    wd = os.path.join(_rundir(ctx), "cpp")
     os.makedirs(wd, exist_ok=True)
-    inp = os.path.join(ctx.bdir, "codec_input.txt")
+    inp = os.path.join(_rundir(ctx), "codec_input.txt")
     with open(inp, "w") as f:
         f.write("\n".join(lines) + "\n")
     res = cpp_build.run_jobs(wd, [cpp_build.CppJob("codec", None, CODEC_DRIVER, run_args=[inp])], timeout=600)["codec"]
@@ -355,7 +368,7 @@ def run_codec_tie(ctx, only=None):
         k += 1
     # decode(encode x) == x on the real code: feed the C++ texts back
     back = ["D %s %s" % (tname(t), cpp_text[(t, b, g, v)] if cpp_text[(t, b, g, v)] != "-" else "") for t, b, g, v in enc]
-    inp2 = os.path.join(ctx.bdir, "codec_input2.txt")
+    inp2 = os.path.join(_rundir(ctx), "codec_input2.txt")
     with open(inp2, "w") as f:
         f.write("\n".join(back) + "\n")
     rc, o2 = fw.sh([os.path.join(res.dir, "driver"), inp2], timeout=300)
@@ -481,7 +494,8 @@ static void w_%(s)s(const std::vector<std::string> &p) {
   bool upd = ::emboss::UpdateFromText(view2, text);
   bool ok2 = view2.Ok();
   std::string text2 = ok2 ? ::emboss::WriteToString(view2, o) : std::string();
-  printf("W ok=1 text=%%s upd=%%d ok2=%%d text2=%%s\n", hex(text).c_str(), upd ? 1 : 0, ok2 ? 1 : 0, hex(text2).c_str());
+  printf("W ok=1 text=%%s upd=%%d ok2=%%d text2=%%s buf2=%%s\n", hex(text).c_str(), upd ? 1 : 0, ok2 ? 1 : 0, hex(text2).c_str(),
+         hex(std::string(buf2.begin(), buf2.end())).c_str());
 }
 '''
 
@@ -625,7 +639,7 @@ def run_struct_tie(ctx, gt, only=None):
     allopts = option_sets(r, ctx.thorough())
     mods = []
     jobs = []
-    wd = os.path.join(ctx.bdir, "cpp")
+    wd = os.path.join(_rundir(ctx), "cpp")
     corpus = [json.load(open(p)) for p in sorted(glob.glob(os.path.join(fw.VERIF, "corpus", "C06", "*.json")))]
     if only is not None:
         corpus, n_mod = list(only), 0
@@ -648,10 +662,31 @@ def run_struct_tie(ctx, gt, only=None):
         lines, meta = [], []
         parts = [STRUCT_DRIVER_HEAD % dict(name=name)]
         disp = []
-        tops = rec["structs"] if rec else mod.tops
+        tops = rec["structs"] if rec else mod.tops + mod.float_tops
+        float_tops = set(rec.get("float_structs", [])) if rec else set(mod.float_tops)
         for top in tops:
             parts.append(STRUCT_DRIVER_W % dict(s=top))
             disp.append('    if (p[0] == "W" && p[1] == "%s") w_%s(p);' % (top, top))
+            if top in float_tops:
+                # Float fields: no Coq model of the float text; C++ round trip compared by bit pattern,
+                # float tokens compared with a python reference rendering
+                fl = []
+                if rec:
+                    for c in rec["cases"]:
+                        if c["struct"] == top:
+                            fl.append((_unjson(c["instance"]), bytes.fromhex(c["buffer"]), c.get("options"), c.get("floats", {})))
+                else:
+                    for _ in range(n_inst):
+                        inst, raw = mod.instance(mod.sdef(top), r)
+                        fl.append((inst, raw, None, _scalar_floats(mod.sdef(top), inst)))
+                rr = [x for x in allopts if x[1]]
+                for inst, raw, fixed_opts, fvals in fl:
+                    opts = [(fixed_opts, True)] if fixed_opts else r.sample(rr, min(len(rr), max(3, n_opt // 2)))
+                    for o, reread in opts:
+                        lines.append("W %s %s %d %d %d %d %s" % (top, raw.hex() or "-", o["base"], int(o["grouping"]), int(o["multiline"]),
+                                                              int(o["comments"]), o["indent"].encode().hex() or "-"))
+                        meta.append(dict(kind="F", top=top, inst=inst, raw=raw, opts=o, reread=True, flat=False, floats=fvals))
+                continue
             tir = vb.find_type(top)
             flat = (mod is not None and mod.sdef(top).flat)
             insts = []
@@ -686,7 +721,7 @@ def run_struct_tie(ctx, gt, only=None):
                 parts.append(STRUCT_DRIVER_U % dict(s=top, leaves=cpp_leaf_code(zero_tree)))
                 disp.append('    if (p[0] == "U" && p[1] == "%s") u_%s(p);' % (top, top))
         parts.append(STRUCT_DRIVER_MAIN % dict(dispatch="\n".join(disp)))
-        inp = os.path.join(ctx.bdir, "in_%s.txt" % name)
+        inp = os.path.join(_rundir(ctx), "in_%s.txt" % name)
         with open(inp, "w") as f:
             f.write("\n".join(lines) + "\n")
         jobs.append(cpp_build.CppJob(name, text, "".join(parts), run_args=[inp]))
@@ -697,6 +732,7 @@ def run_struct_tie(ctx, gt, only=None):
     # ---- pass 1: text comparison and C++ read-back
     wcases = []
     n_build_fail = 0
+    float_stats = dict(cases=0, ok=True, tokens=0)
     for md in mods:
         res = results[md["name"]]
         if not res.ok:
@@ -732,6 +768,9 @@ def run_struct_tie(ctx, gt, only=None):
             text = bytes.fromhex(kv["text"]) if kv["text"] != "-" else b""
             text2 = bytes.fromhex(kv["text2"]) if kv["text2"] != "-" else b""
             mt["cpp_text"] = text
+            if mt["kind"] == "F":
+                _check_float_case(ctx, mt, kv, text.decode("latin-1"), text2.decode("latin-1"), replay, float_stats)
+                continue
             feat = _features(mt["tree"])
             for ft in feat:
                 ctx.count("feature:" + ft)
@@ -766,6 +805,9 @@ def run_struct_tie(ctx, gt, only=None):
                    "exactly the predicted TryToWrite calls, on %d (module, buffer, options) cases" % len(wcases), not bad)
     ctx.obligation("C++ round trip: UpdateFromText(WriteToString(view)) into a zeroed buffer restores every emitted field (%d cases)"
                    % sum(1 for _, _, o in wcases if o["mt"]["reread"]), all(o["mt"].get("rb_ok", True) for _, _, o in wcases))
+    ctx.obligation("C++ round trip of structures with Float:32/64 fields (zeros, denormals, extremes, infinities, NaNs with sign and "
+                   "payload): restored buffer equal BIT FOR BIT, %d cases; %d float tokens equal to the reference rendering (observed, not modelled in Coq)"
+                   % (float_stats["cases"], float_stats["tokens"]), float_stats["ok"] and (float_stats["cases"] > 0 or only is not None))
     seen = 0
     for idx, mo in bad:
         a, b, obj = wcases[idx]
@@ -779,6 +821,68 @@ def run_struct_tie(ctx, gt, only=None):
     run_update_tie(ctx, mods, results, n_pert, gt)
     ctx.extra["modules_built"] = len(mods) - n_build_fail
     ctx.extra["modules_failed_to_build"] = n_build_fail
+
+
+def _scalar_floats(sdef, inst, out=None):
+    """name -> (bit pattern, width) of the present scalar Float fields (names are unique in a module)."""
+    out = {} if out is None else out
+    for f in sdef.fields:
+        if f.name not in inst:
+            continue
+        present, v = inst[f.name]
+        if not present:
+            continue
+        if f.kind == "float":
+            out[f.name] = [v, f.size * 8]
+        elif f.kind == "struct" and isinstance(v, dict):
+            _scalar_floats(f.sdef, v, out)
+    return out
+
+
+def _float_class(pattern, nbits):
+    e, m = ((pattern >> 23) & 0xff, pattern & 0x7fffff) if nbits == 32 else ((pattern >> 52) & 0x7ff, pattern & 0xfffffffffffff)
+    top = 0xff if nbits == 32 else 0x7ff
+    sign = "-" if pattern >> (nbits - 1) else "+"
+    if e == top:
+        return sign + ("nan" if m else "inf")
+    if e == 0:
+        return sign + ("denormal" if m else "zero")
+    return sign + "normal"
+
+
+def _check_float_case(ctx, mt, kv, text, text2, replay, stats):
+    o = mt["opts"]
+    stats["cases"] += 1
+    ctx.count("options(float):%s%s" % ("multi" if o["multiline"] else "single", "+comments" if o["comments"] else ""))
+    for nm, (pat, nb) in mt["floats"].items():
+        ctx.count("float%d:%s" % (nb, _float_class(pat, nb)))
+    ctx.case(("f", mt["raw"], sorted(o.items())), nontrivial=True, sample=None)
+    replay = dict(replay, floats=mt["floats"])
+    buf2 = bytes.fromhex(kv["buf2"]) if kv.get("buf2", "-") != "-" else b""
+    if kv["upd"] != "1" or kv["ok2"] != "1" or buf2 != mt["raw"]:
+        stats["ok"] = False
+        why = "UpdateFromText returned false" if kv["upd"] != "1" else "restored view not Ok" if kv["ok2"] != "1" else \
+              "restored buffer differs in bit pattern (%s -> %s)" % (mt["raw"].hex(), buf2.hex())
+        # name the float token that is not read back, if one can be singled out
+        culprit = ""
+        for nm, (pat, nb) in mt["floats"].items():
+            if _float_class(pat, nb).endswith("nan") or _float_class(pat, nb).endswith("inf"):
+                culprit = culprit or " (special values present: %s = %s)" % (nm, G.float_text(pat, nb, o["grouping"]))
+        ctx.violation("text-float-roundtrip", "C++ round trip of a structure with Float fields failed: %s%s; struct %s, options %s"
+                      % (why, culprit, mt["top"], o),
+                      dict(replay, cpp_text=text, cpp_text_after=text2, restored_buffer=buf2.hex(), why=why), found_input=True)
+        return
+    toks = dict(re.findall(r"([A-Za-z_][A-Za-z_0-9]*): ([^\s,{}]+)", strip_ro_comments(text)))
+    for nm, (pat, nb) in mt["floats"].items():
+        want = G.float_text(pat, nb, o["grouping"])
+        stats["tokens"] += 1
+        if toks.get(nm) != want:
+            stats["ok"] = False
+            ctx.violation("text-float-rendering", "Float:%d field %s with bit pattern 0x%x is written as %r, reference rendering %r"
+                          % (nb, nm, pat, toks.get(nm), want),
+                          dict(replay, cpp_text=text, field=nm, correspondence="harness/gen_text.float_text (python reference) vs WriteFloatToTextStream"),
+                          found_input=False)
+            return
 
 
 def gt_term(gt):
@@ -846,7 +950,8 @@ def _has_long_array(n):
 def _rb_key(mt, gt, why=""):
     """Names the mechanism when it is recognisable: multi-line arrays are written without separators
     (the reader then returns false at the second element)."""
-    if mt["opts"]["multiline"] and _has_long_array(mt["tree"]) and why == "UpdateFromText returned false":
+    if mt["opts"]["multiline"] and _has_long_array(mt["tree"]) and why == "UpdateFromText returned false" \
+            and "enum-known" not in _features(mt["tree"]):
         return "text-array-multiline-not-rereadable"
     return "text-roundtrip"
 
@@ -967,7 +1072,7 @@ def run_update_tie(ctx, mods, results, n_pert, gt):
                 lines.append("U %s %d %s" % (top, size, pb.hex() or "-"))
                 meta.append(dict(top=top, text=pb, tree=base_tree, leaves=lv, size=size, vdef=lst[0][1]["vdef"]))
         md["u_lines"], md["u_meta"] = lines, meta
-        inp = os.path.join(ctx.bdir, "inu_%s.txt" % md["name"])
+        inp = os.path.join(_rundir(ctx), "inu_%s.txt" % md["name"])
         with open(inp, "w") as f:
             f.write("\n".join(lines) + "\n")
         jobs2.append((md, inp))
@@ -1014,6 +1119,15 @@ def run_update_tie(ctx, mods, results, n_pert, gt):
 
 # ------------------------------------------------------------------------------------
 def run(ctx):
+    import shutil
+    try:
+        _run(ctx)
+    finally:
+        if not ctx.violations:
+            shutil.rmtree(_rundir(ctx), ignore_errors=True)
+
+
+def _run(ctx):
     ctx.rule = ("codec: for each of the 8 integer types: type min/max (+-1), all powers of 2/10/16 +-1, grouping boundaries, random values, "
                 "each in bases 2/10/16 with and without grouping; decode: overflowing numerals in every spelling, stray '_', bad prefixes, "
                 "empty, sign on unsigned, character soup; token streams of separators/comments/words. structures: random modules "
@@ -1063,7 +1177,10 @@ def replay(ctx, gt):
     names = {tname(t): t for t in TYPES}
     if kind == "struct" and "buffer" in r:
         rec = dict(module=r["module"], structs=[r["struct"]],
-                   cases=[dict(struct=r["struct"], instance=r["instance"], buffer=r["buffer"], options=r["options"])])
+                   cases=[dict(struct=r["struct"], instance=r["instance"], buffer=r["buffer"], options=r["options"],
+                               floats=r.get("floats", {}))])
+        if "floats" in r:
+            rec["float_structs"] = [r["struct"]]
         run_struct_tie(ctx, gt, only=[rec])
     elif kind == "codec" and "value" in r:
         run_codec_tie(ctx, only=([(names[r["type"]], r["base"], int(r["grouping"]), int(r["value"]))], [], []))
